@@ -1,3 +1,7 @@
+pub mod allocmc;
+pub mod c12;
+pub mod c13;
+pub mod c14;
 pub mod c15;
 pub mod c16;
 pub mod c17;
@@ -11,6 +15,9 @@ pub mod c29;
 use crate::common::{Ctx, Report};
 pub fn dispatch(p: &str, ctx: &Ctx) -> Option<Report> {
     Some(match p {
+        "C12" => c12::run(ctx),
+        "C13" => c13::run(ctx),
+        "C14" => c14::run(ctx),
         "C15" => c15::run(ctx),
         "C16" => c16::run(ctx),
         "C17" => c17::run(ctx),
